@@ -228,6 +228,38 @@ class Item:
             n += 1
         return self
 
+    def rw_from_fn(self, n, ty, expect=None):
+        """R9: `core::array::from_fn(|_| BODY)` (an FnMut closure capturing `&mut` state, outside Verus's subset) becomes
+        the loop std documents it to be: BODY evaluated `n` times in increasing index order, results collected in order:
+          { let mut vf_arr: Vec<ty> = Vec::new(); for _ in 0..n { let vf_elem = BODY; vf_arr.push(vf_elem); }
+            shim_array_from_vec::<ty, n>(vf_arr) }
+        `n` and `ty` are checked by rustc against the array type expected at the call site."""
+        if hasattr(self, '_splices'):
+            raise ExtractError('%s: executable rewrite after ghost splices' % self.name)
+        k = 0
+        while True:
+            t = self.text
+            mask = code_mask(t)
+            ms = find_code(t, mask, r'(?:::)?core::array::from_fn\(', regex=True)
+            if not ms:
+                break
+            m = ms[0]
+            ob = m.end() - 1
+            cb = match_close(t, mask, ob)
+            arg = t[ob + 1:cb].strip().rstrip(',').strip()
+            if not re.match(r'\|\s*_\s*\|', arg):
+                raise ExtractError('%s: R9: from_fn argument is not a closure ignoring its index: %s' % (self.name, arg[:60]))
+            body = _closure_body(arg)
+            repl = ('{ let mut vf_arr: Vec<%s> = Vec::new(); for _ in 0..%s { let vf_elem = %s; vf_arr.push(vf_elem); } shim_array_from_vec::<%s, %s>(vf_arr) }'
+                    % (ty, n, body, ty, n))
+            self.text = t[:m.start()] + repl + t[cb + 1:]
+            k += 1
+        if expect is not None and k != expect:
+            raise ExtractError('%s: rewrite R9 (array::from_fn) applied %d times, expected %d' % (self.name, k, expect))
+        if k:
+            self.log.append(('R9', 'core::array::from_fn(|_| BODY) -> loop evaluating BODY %s times in order, collected with shim_array_from_vec  x%d' % (n, k)))
+        return self
+
     def drop_attrs(self):
         """Remove doc comments / attributes in front (ghost-irrelevant)."""
         lines = self.text.split('\n')
